@@ -63,7 +63,7 @@ def showWhy : Why → String
   | .marker => "marker" | .oversize => "oversize" | .undecodable => "undecodable" | .notMessage => "notmsg"
   | .expectedHandshake => "nohs" | .serverHsFromClient => "hsdir-server" | .clientHsAsClient => "hsdir-client"
   | .secondHandshake => "hs2" | .badDestination => "baddst" | .badSource => "badsrc"
-  | .handlerException => "exc:RuntimeError"
+  | .badHandshakeName => "hsname"
 
 def showBeh : Behaviour → String
   | .accept => "a" | .refuse => "r" | .crash => "c"
